@@ -150,7 +150,7 @@ def run_case(case):
     labels = {'fam=' + fam, 'stages=%d' % len(texts)}
 
     if any(alias_context_conflict(d, shared_only=True) for d in case['docs']):
-        return Outcome(labels=['skip-shared-node-under-differently-flagged-parents'])
+        labels.add('aliased-node-under-differently-flagged-parents')
 
     def make():
         return parse_one(texts[0]) if fam == 'A' else merged(texts)
